@@ -106,7 +106,15 @@ class SArr:
         dtype = np.dtype(dtype)
         nd = len(shape)
         Z = core.Z
-        if kind == "bv":
+        if kind == "fp":
+            srt = _fsort(dtype)
+            f = c.func(name, *([Z.IntSort()] * nd), srt, inp=inp)
+
+            def fn(*idx):
+                t = f(*[core._i(i) for i in idx])
+                ctx().assume(Z.And(Z.Not(Z.fpIsNaN(t)), Z.Not(Z.fpIsInf(t))))   # "finite values"
+                return core.SFP(t)
+        elif kind == "bv":
             w = dtype.itemsize * 8
             f = c.func(name, *([Z.IntSort()] * nd), Z.BitVecSort(w), inp=inp)
             fn = lambda *idx: (SU64(f(*[core._i(i) for i in idx])) if w == 64 else SBV(f(*[core._i(i) for i in idx]), w))
@@ -153,6 +161,11 @@ class SArr:
     @property
     def flat(self):
         return self.reshape((self.size,))
+
+    @property
+    def flags(self):
+        import types
+        return types.SimpleNamespace(writeable=self.writeable)
 
     @property
     def nbytes(self):
@@ -545,9 +558,64 @@ def _arith(dt, x, y, op):
     return r
 
 
+def _fsort(dt):
+    return core.F32 if np.dtype(dt).itemsize == 4 else core.F64
+
+
+def _fp_cast(v, src, dst):
+    """bit-exact conversions used in the FP regime (C11); returns None if v is not in that regime"""
+    Z = core.Z
+    c = ctx()
+    if isinstance(v, (SBV, SU64)) and src.kind in "ui" and dst.kind == "f":
+        f = Z.fpSignedToFP if src.kind == "i" else Z.fpUnsignedToFP
+        return core.SFP(f(core.RNE, v.t, _fsort(dst)))
+    if isinstance(v, core.SFP) and dst.kind == "f":
+        if v.t.sort() == _fsort(dst):
+            return v
+        return core.SFP(Z.fpFPToFP(core.RNE, v.t, _fsort(dst)))
+    if isinstance(v, core.SFP) and dst.kind in "ui":
+        w = dst.itemsize * 8
+        lo, hi = int(np.iinfo(dst).min), int(np.iinfo(dst).max)
+        tr = Z.fpRoundToIntegral(core.RTZ, v.t)        # C cast truncates toward zero
+        srt = v.t.sort()
+        inr = Z.And(Z.fpGEQ(tr, core.fp_const(lo, srt)) if True else None,
+                    Z.fpLT(tr, _fp_pow2(w if dst.kind == "u" else w - 1, srt)))
+        conv = (Z.fpToUBV if dst.kind == "u" else Z.fpToSBV)(core.RTZ, v.t, Z.BitVecSort(w))
+        junk = Z.BitVec(c.fresh_name("ub_cast"), w)
+        c.note(f"astype({src}->{dst}, unsafe): C conversion truncates toward zero; out-of-range operand gives an arbitrary value (undefined behaviour)")
+        t = Z.If(inr, conv, junk)
+        return SU64(t) if w == 64 else SBV(t, w)
+    if isinstance(v, (SBV, SU64)) and src.kind in "ui" and dst.kind in "ui":
+        cur = src.itemsize * 8
+        w = dst.itemsize * 8
+        t = v.t
+        if w < cur:
+            t = Z.Extract(w - 1, 0, t)
+        elif w > cur:
+            t = Z.SignExt(w - cur, t) if src.kind == "i" else Z.ZeroExt(w - cur, t)
+        return SU64(t) if w == 64 else SBV(t, w)
+    return None
+
+
+def _fp_pow2(k, sort):
+    return core.fp_const(1 << k, sort)
+
+
 def elem_cast(src, dst):
     """element conversion for astype between dtypes (value-level)"""
     src, dst = np.dtype(src), np.dtype(dst)
+    inner = _elem_cast_generic(src, dst)
+
+    def conv(v):
+        if isinstance(v, (core.SFP, SBV)) or (isinstance(v, SU64) and (src.kind != dst.kind or src.itemsize != dst.itemsize)):
+            r = _fp_cast(v, src, dst)
+            if r is not None:
+                return r
+        return inner(v)
+    return conv
+
+
+def _elem_cast_generic(src, dst):
     if src == dst or (src.kind == dst.kind and src.itemsize == dst.itemsize):
         return lambda v: v
     if src.kind in "ui" and dst.kind in "ui":
